@@ -90,6 +90,8 @@ class TlcResult:
         if "Temporal properties were violated" in out:
             self.violated.append("temporal")
         self.rejected = re.findall(r'<<\s*"REJECTED",\s*(\d+),\s*(.*?)>>\s+FALSE', out, re.S)
+        # invariants evaluated inside the step of a trace specification (see StorageTrace!Chk)
+        self.invfail = re.findall(r'<<\s*"INVFAIL",\s*"(\w+)",\s*(\d+)\s*>>', out)
         self.kf = re.findall(r'<<\s*"KF",\s*"([^"]*)",\s*(\d+)\s*>>', out, re.S)
         self.tool_error = ("TLC threw an unexpected exception" in out or "Parsing or semantic analysis failed" in out
                            or "java.lang.OutOfMemoryError" in out or "StackOverflowError" in out
@@ -122,6 +124,9 @@ def run_tlc(module, cfg, workers=8, timeout=600, env=None, trace=None, simulate=
         cmd += ["-depth", str(depth)]
     if coverage:
         cmd += ["-coverage", "1"]
+    if trace:
+        # error traces of a trace validation are as long as the trace: print differences only
+        cmd.append("-difftrace")
     if extra:
         cmd += extra
     cmd.append(module + ".tla")
@@ -132,12 +137,23 @@ def run_tlc(module, cfg, workers=8, timeout=600, env=None, trace=None, simulate=
     if trace:
         e["TRACE"] = trace
     t0 = time.time()
-    p = subprocess.run(cmd, cwd=SPEC, stdout=subprocess.PIPE, stderr=subprocess.STDOUT, text=True, env=e)
+    # TLC's output goes to a file: an error trace of a long trace validation can be gigabytes
+    outpath = os.path.join(meta, "tlc.stdout")
+    with open(outpath, "w") as of:
+        p = subprocess.run(cmd, cwd=SPEC, stdout=of, stderr=subprocess.STDOUT, env=e)
     wall = time.time() - t0
+    size = os.path.getsize(outpath)
+    with open(outpath, "r", errors="replace") as f:
+        if size <= 64_000_000:
+            out = f.read()
+        else:
+            head = f.read(8_000_000)
+            f.seek(size - 8_000_000)
+            out = head + "\n... (%d bytes of TLC output dropped) ...\n" % (size - 16_000_000) + f.read()
     shutil.rmtree(meta, ignore_errors=True)
     if p.returncode == 124:
         raise ToolError(f"TLC timed out after {timeout}s on {module}/{cfg}")
-    return TlcResult(p.returncode, p.stdout, wall)
+    return TlcResult(p.returncode, out, wall)
 
 
 def strip_nulls(v, keep=("payload",)):
